@@ -105,9 +105,15 @@ type FuncContract struct {
 	Results  []Param
 	Uses     []string // lemmas assumed while verifying this function
 	RecvName string
+	PkgInit  bool
+	Defines  []Clause // ghost definitions about fresh results: assumed by callers, not checked in the body
+	AllocBound *Clause
+	Forbids  []string
+	Decreases *Clause
 }
 
 type ContractFile struct {
+	Invariants []Clause // package-level invariants over global variables
 	Path   string
 	Specs  []*SpecFunc
 	Axioms []*Axiom
@@ -447,8 +453,12 @@ func (p *parser) parseUnary() (Expr, error) {
 		}
 		return &EUn{"-", x}, nil
 	}
-	if p.accept("*") { // explicit deref: ignored (auto-deref)
-		return p.parseUnary()
+	if p.accept("*") { // explicit dereference
+		x, err := p.parseUnary()
+		if err != nil {
+			return nil, err
+		}
+		return &EUn{"*", x}, nil
 	}
 	return p.parsePostfix()
 }
@@ -579,7 +589,7 @@ var clauseKW = map[string]bool{
 	"func": true, "spec": true, "uf": true, "axiom": true, "lemma": true, "pred": true,
 	"requires": true, "ensures": true, "assigns": true, "loop": true, "safety": true,
 	"props": true, "trusted": true, "inline": true, "pure": true, "maypanic": true, "nobody": true,
-	"extern": true, "opaque": true, "uses": true,
+	"extern": true, "opaque": true, "uses": true, "allocbound": true, "forbids": true, "decreases": true, "invariant": true, "defines": true,
 }
 
 type rawClause struct {
@@ -653,6 +663,14 @@ func ParseContractFile(path string) (*ContractFile, error) {
 			sf.File, sf.Line = path, rc.line
 			cf.Specs = append(cf.Specs, sf)
 			cur = nil
+		case "invariant":
+			label, text := splitLabel(rc.text)
+			e, err := ParseExpr(text)
+			if err != nil {
+				return nil, fail(err)
+			}
+			cf.Invariants = append(cf.Invariants, Clause{Label: label, E: e, Text: text, Line: rc.line, File: path})
+			cur = nil
 		case "opaque":
 			if len(cf.Specs) == 0 {
 				return nil, fail(fmt.Errorf("opaque without spec func"))
@@ -685,7 +703,20 @@ func ParseContractFile(path string) (*ContractFile, error) {
 				cur.Props = append(cur.Props, strings.Fields(rc.text)...)
 			case "uses":
 				cur.Uses = append(cur.Uses, strings.Fields(rc.text)...)
-			case "requires", "ensures":
+			case "forbids":
+				cur.Forbids = append(cur.Forbids, strings.Fields(rc.text)...)
+			case "allocbound", "decreases":
+				e, err := ParseExpr(rc.text)
+				if err != nil {
+					return nil, fail(err)
+				}
+				cl := &Clause{E: e, Text: rc.text, Line: rc.line, File: path}
+				if rc.kw == "allocbound" {
+					cur.AllocBound = cl
+				} else {
+					cur.Decreases = cl
+				}
+			case "requires", "ensures", "defines":
 				label, text := splitLabel(rc.text)
 				e, err := ParseExpr(text)
 				if err != nil {
@@ -694,6 +725,8 @@ func ParseContractFile(path string) (*ContractFile, error) {
 				cl := Clause{Label: label, E: e, Text: text, Line: rc.line, File: path}
 				if rc.kw == "requires" {
 					cur.Requires = append(cur.Requires, cl)
+				} else if rc.kw == "defines" {
+					cur.Defines = append(cur.Defines, cl)
 				} else {
 					cur.Ensures = append(cur.Ensures, cl)
 				}
